@@ -264,6 +264,21 @@ rr_cb(void *ctx_, void *it)
             }
             break;
         }
+        case 0x2c: { /* set_name with a non-NULL, zero-length default zone (= no zone) */
+            size_t         n;
+            const uint8_t *name = rdblob(&r, &n);
+            if (run && !r.bad) {
+                static const uint8_t empty_zone[1] = { 0 };
+                const CErr          *err          = NULL;
+                int                  rc           = c->t->set_name(it, &err, (const char *) name, n, empty_zone, 0);
+                tr(c->tr, " set_name rc=%d", rc);
+                if (rc != 0 && err != NULL) {
+                    trace_err(c, err);
+                }
+                tr(c->tr, "\n");
+            }
+            break;
+        }
         case 0x2a: /* delete_rr */
             if (run) {
                 const CErr *err = NULL;
